@@ -119,6 +119,9 @@ class DULServiceProvider(threading.Thread):
         if dul_socket:  # A client socket has been given. Generate an event 5
             self.event.append(fsm.Events.EVT_5)
 
+        # Association-requestor (1) or association-acceptor (0) side: decides the
+        # release collision branch (AR-8). The acceptor is handed the accepted socket.
+        self.requestor = 0 if dul_socket else 1
         self.dul_socket = dul_socket
         self.raw_pdu = b''
 
